@@ -680,6 +680,55 @@ def r13_placing_on_load_changes_nothing(idx, r):
                       "written one")
 
 
+def r15_negative_node_and_charge_parameters(idx, r):
+    """(a) Database.load(cycle, node) with a negative node counts from the end of the cycle: node -1 is the last of the numNodes nodes, i.e.
+    numNodes - 1.  The branch is EVALUATED for every cycle size 1..5 and every negative node: it yields numNodes + node when that is >= 0 and
+    refuses otherwise.  (b) Core.add stamps the charge parameters (chargeTime, chargeCycle, chargeFis, chargeBu) on an assembly entering the
+    core - not on one that Database.load is putting back: every store into `a.p` in Core.add sits behind `lastLocationLabel != DATABASE`."""
+    from ..minieval import MiniEval, Raised
+    ld = idx.method(DB + ".Database", "load")
+    neg = [x for x in ld.node.body if isinstance(x, ast.If) and norm(x.test) in ("node < 0", "0 > node")]
+    if len(neg) != 1:
+        raise AnchorMissing("Database.load: the `node < 0` branch")
+
+    class _Body:
+        body = neg[0].body
+    bad = []
+    for n in range(1, 6):
+        for node in range(-1, -8, -1):
+            def hook(call, args, n=n):
+                if dotted(call.func) == "getNodesPerCycle":
+                    return [n, n]
+                return None
+            ev = MiniEval(call_hook=hook)
+            env = dict(node=node, cycle=0, cs=0)
+            try:
+                ev._block(_Body.body, env)
+                got = env["node"]
+            except Raised:
+                got = "refused"
+            want = n + node if n + node >= 0 else "refused"
+            if got != want:
+                bad.append((n, node, got, want))
+    r.require(not bad, "Database.load:negative-node-counts-from-the-end", ld, node=neg[0],
+              msg=f"with (nodes in the cycle, node asked, node loaded, expected) = {bad[:3]}: a from-the-end node index resolves to another snapshot than the one it names")
+    add = idx.method("armi.reactor.cores.Core", "add")
+    a = add.params()[1]
+    sts = [s_ for s_ in iter_stores(add.node) if s_.chain and s_.chain.startswith(f"{a}.p.")]
+    if len(sts) < 3:
+        raise AnchorMissing("Core.add: charge parameter stores")
+    for s_ in sts:
+        conds = {(norm(t), p) for t, p in path_conditions(add.node, s_.stmt)}
+        ok = any(("DATABASE" in c and "lastLocationLabel" in c) and ((("!=" in c) and p) or (("==" in c) and not p)) for c, p in conds)
+        r.require(ok, f"Core.add:{s_.attr}:not-when-loading", add, node=s_.stmt,
+                  msg=f"`{norm(s_.stmt)}` also runs while Database.load puts the assembly back into the core: the {s_.attr} read from the file is replaced by a value computed from the present state")
+
+
+def r16_pairing(idx, r):
+    from ..pairing import pairing_rule
+    pairing_rule(idx, r, ["armi.bookkeeping.db"], 60)
+
+
 def r14_file_values_win(idx, r):
     """(a) Database.load reads every stored parameter and then calls _assignBlueprintsParams.  Whatever that step assigns comes AFTER the file
     values, so it must not reach an object whose parameters were read: today it looks the loaded objects up under their class OBJECT in a table
@@ -756,3 +805,7 @@ def run(idx, chk):
                  necessary="loading returns the state as written")
     chk.run_rule("R04.14", "values read from the file are final: the blueprint step and the auto-grid step leave loaded state alone; stored flag order is the bit order", lambda r: r14_file_values_win(idx, r), floor=5,
                  necessary="loading returns the state as written")
+    chk.run_rule("R04.15", "a negative node counts from the end of the cycle (evaluated); Core.add stamps charge parameters only on assemblies that are not being loaded", lambda r: r15_negative_node_and_charge_parameters(idx, r), floor=4,
+                 necessary="the state loaded for a time node is the state written for that node")
+    chk.run_rule("R04.16", "arguments stand at the parameter they are named after; sibling calls forward the same pass-through parameters", lambda r: r16_pairing(idx, r), floor=1,
+                 necessary="the reader is handed the cycle, node and label the caller named")
